@@ -42,6 +42,9 @@ func runC08(c *Ctx) {
 			c07ForOrder(s, es)
 		}
 	})
+	if eu := c.P.LangFunc("(*Evaluator).evalUnaryExpr"); eu != nil {
+		c.shared("R18", "C09/R5", "a call result is a value of its own: numbers are never stepped in place — ++ / -- assign a new number through evalAssignment, so the shallow copy a call returns does not share a number with the variable the callee returned", keyHas("incdec"), func(s *Ctx) { incdecTable(s, "R5", eu) })
+	}
 	c.shared("R15", "C07/R10", "a call yields the value of the executed return statement, or null if it has none: the parser gives a return a value exactly where the statement has not ended (a newline after `return` ends it; the next line is a statement of its own)", keyHas("return-node"), func(s *Ctx) { returnValuePresence(s, "R10") })
 	c.shared("R13", "C02/R3", "`next` executed inside a function ends the current element wherever the call is written, a rule pattern included: evalRules returns at once on the next signal from a pattern as from a body", keyHas("errNext-test"), c02R3)
 	c.shared("R14", "C02/R4", "`next` raised while a rule's pattern is evaluated is not read as `no match`: the pattern gate passes every error of the pattern on", keyHas("pattern-gate"), c02R4)
